@@ -3,6 +3,7 @@ module verifharness
 go 1.25
 
 require (
+	github.com/anishathalye/porcupine v0.1.2
 	github.com/kaitai-io/kaitai_struct_go_runtime v0.11.0
 	github.com/thomasjungblut/go-sstables v0.0.0
 	google.golang.org/protobuf v1.36.11
